@@ -120,9 +120,10 @@ impl<const K: usize> AffTree<K> {
                 *val -= 1e-10;
             });
 
-            // check if new points are solutions of poly
+            // check if new points are solutions of poly (also w.r.t. the unnormalized rows, whose
+            // rounding differs from the normalized ones far away from the origin)
             let contained_points = zip(candidates.axis_iter(Axis(1)), distances.axis_iter(Axis(1)))
-                .filter(|(_, dist)| dist.iter().all(|val| *val >= 0.))
+                .filter(|(point, dist)| dist.iter().all(|val| *val >= 0.) && poly.contains(point))
                 .map(|(point, _)| point.insert_axis(Axis(1)))
                 .collect_vec();
 
